@@ -89,6 +89,9 @@ func (s OTSpec) templateText() string {
 			sb.WriteString(fmt.Sprintf("  %s: {{ .config.%s | b64enc | quote }}\n", f.DataKey, arg))
 		case "upper":
 			sb.WriteString(fmt.Sprintf("  %s: {{ .config.%s | upper | quote }}\n", f.DataKey, arg))
+		case "opt":
+			// the whole line exists only while the source provides a non-empty value
+			sb.WriteString(fmt.Sprintf("{{ if (get .config \"%s\") }}  %s: {{ get .config \"%s\" | quote }}\n{{ end }}", arg, f.DataKey, arg))
 		case "lit":
 			sb.WriteString(fmt.Sprintf("  %s: \"%s\"\n", f.DataKey, arg))
 		case "env":
@@ -211,6 +214,10 @@ func otExpect(store *kubesim.Store, s OTSpec, tmplNS string, kubeVersion string)
 				v = "dflt"
 			}
 			exp.Data[f.DataKey] = v
+		case "opt":
+			if has && v != "" {
+				exp.Data[f.DataKey] = v
+			}
 		case "lit":
 			exp.Data[f.DataKey] = arg
 		case "env":
@@ -538,6 +545,9 @@ func init() {
 			data := map[string]any{"k0": fmt.Sprintf("v%d", mod(st.J, 4)), "k1": fmt.Sprintf("w%d", mod(st.J/2, 3))}
 			if mod(st.J, 7) == 6 {
 				delete(data, "k1")
+			}
+			if mod(st.J, 7) == 5 {
+				data["k0"] = "" // a value that becomes empty
 			}
 			if cur == nil {
 				u := &unstructured.Unstructured{Object: map[string]any{"apiVersion": "v1", "kind": k.Kind, "metadata": map[string]any{"name": k.Name, "namespace": k.Namespace}, "data": data}}
